@@ -11,7 +11,7 @@ import (
 	"verif/harness/spec"
 )
 
-var c19Patterns = []string{"silent", "traffic-then-silent", "ping", "publish-only", "trickle", "silent-mid-packet", "silent-after-header-byte", "uneven", "large-then-ping", "silent-receiving", "silent-successor", "silent-outbound-full"}
+var c19Patterns = []string{"silent", "traffic-then-silent", "ping", "publish-only", "trickle", "silent-mid-packet", "silent-after-header-byte", "uneven", "large-then-ping", "silent-receiving", "silent-successor", "silent-outbound-full", "silent-resumed"}
 var c19Fractions = []float64{0.25, 0.5, 0.9, 0.99}
 
 func c19Run(t *testing.T, K int, pattern string, frac float64, idx int) {
@@ -34,11 +34,38 @@ func c19Run(t *testing.T, K int, pattern string, frac float64, idx int) {
 		if pattern == "silent-outbound-full" {
 			policy = rawclient.AckNone
 		}
-		c, ack := w.connectB("subject", connectOpts{Clean: pattern != "silent-successor", KeepAlive: uint16(K), Policy: policy,
+		origPattern := pattern
+		stopBase := 0
+		if pattern == "silent-resumed" {
+			// the subject's client identifier has a stored session from an earlier connection that ended
+			// with DISCONNECT; the connection under observation resumes it
+			pc, pack := w.connectB("subject", connectOpts{Clean: false, KeepAlive: 6000})
+			if pack == nil || pack.ReturnCode != 0 {
+				fail("c19:connect", "no CONNACK for the subject's earlier connection")
+				return
+			}
+			pc.subscribeB([]string{"ka/own"}, []byte{1})
+			pc.SendPacket(&rc.Packet{Type: rc.DISCONNECT})
+			pc.Flush()
+			pc.Close()
+			settle()
+			if w.sink != nil {
+				stopBase = w.sink.count("stop.done", "subject") // the earlier connection's teardown
+			}
+		}
+		c, ack := w.connectB("subject", connectOpts{Clean: pattern != "silent-successor" && pattern != "silent-resumed", KeepAlive: uint16(K), Policy: policy,
 			Will: &rc.Packet{Topic: []byte("will/ka"), QoS: 1, Payload: spec.MakePayload(willUID, 0, 40)}})
 		if ack == nil || ack.ReturnCode != 0 {
 			fail("c19:connect", "no CONNACK for the subject")
 			return
+		}
+		if pattern == "silent-resumed" {
+			if !ack.SessionPresent {
+				fail("c19:connect", "the subject's stored session was not resumed")
+				return
+			}
+			out.Count("c19.resumed_runs", 1)
+			pattern = "silent" // from here on it is a client that says nothing
 		}
 		kd := time.Duration(K) * time.Second
 		interval := time.Duration(float64(kd) * frac)
@@ -125,7 +152,7 @@ func c19Run(t *testing.T, K int, pattern string, frac float64, idx int) {
 		// room (decided on the handled-packet events); then it falls silent. Nothing is pending on the
 		// wire towards the broker. It must be dropped on time like any silent client.
 		gone := func() bool {
-			return c.Closed() || (w.sink != nil && w.sink.count("stop.done", "subject") > 0)
+			return c.Closed() || (w.sink != nil && w.sink.count("stop.done", "subject") > stopBase)
 		}
 		if pattern == "silent-outbound-full" {
 			if w.sink == nil {
@@ -272,7 +299,7 @@ func c19Run(t *testing.T, K int, pattern string, frac float64, idx int) {
 		}
 		out.Count("c19.runs", 1)
 		out.Count("c19.pings_answered", int64(pings))
-		out.Class(fmt.Sprintf("K%d/%s/%.2f", K, pattern, frac))
+		out.Class(fmt.Sprintf("K%d/%s/%.2f", K, origPattern, frac))
 		if idx%7 == 0 {
 			out.Sample("c19", 4, map[string]interface{}{"K": K, "pattern": pattern, "fraction": frac, "dropped_after_virtual_seconds": droppedAfter.Seconds()})
 		}
@@ -284,7 +311,7 @@ func TestC19(t *testing.T) {
 	for _, K := range []int{1, 2, 3, 5, 10, 60} {
 		for _, p := range c19Patterns {
 			fr := c19Fractions
-			if p == "silent" || p == "silent-mid-packet" || p == "silent-after-header-byte" || p == "silent-outbound-full" {
+			if p == "silent" || p == "silent-resumed" || p == "silent-mid-packet" || p == "silent-after-header-byte" || p == "silent-outbound-full" {
 				fr = []float64{0}
 			}
 			if p == "trickle" {
